@@ -284,7 +284,10 @@ def report(ctx: click.Context, tjp_file: Optional[str], output_csv: bool, output
             if verbose:
                 logger.debug("Reading .tjp content from stdin")
 
-            stdin_content = sys.stdin.read()
+            try:
+                stdin_content = sys.stdin.read()
+            except OSError as e:
+                raise FileNotFoundError(f"Cannot read from stdin: {e}") from e
 
             if not stdin_content.strip():
                 raise FileNotFoundError("No input provided on stdin")
